@@ -277,11 +277,48 @@ def trees(E):
     yield "layer1.1.fc1", lambda: container(E, layer1=seqc(E, container(E, fc1=L(E, "a")), container(E, fc1=L(E, "b"), norm=N(E, "c"))))
     yield "proj.out_proj", lambda: container(E, attn=container(E, proj=container(E, out_proj=L(E, "a"), drop=E.call(RELU, [], {})), q=L(E, "b")))
     yield "mlp.fc.c", lambda: container(E, mlp=container(E, fc=container(E, c=C(E, "a")), act=E.call(RELU, [], {})))
+    yield "derived-classes", lambda: container(E, fc=mk_derived(E, "linear", "a"), blk=container(E, conv=mk_derived(E, "conv", "b"), norm=mk_derived(E, "ln", "c")), out=L(E, "d"))
+
+
+SUBCLS = """
+def mk(kind, a, b):
+    class DerivedLinear(torch.nn.Linear):
+        pass
+
+    class DerivedConv2d(torch.nn.Conv2d):
+        pass
+
+    class DerivedLayerNorm(torch.nn.LayerNorm):
+        pass
+
+    if kind == "linear":
+        return DerivedLinear(a, b)
+    if kind == "conv":
+        return DerivedConv2d(a, b, (1, 1))
+    return DerivedLayerNorm((a,))
+"""
+
+
+def mk_derived(E, kind, tag):
+    """An instance of a user subclass of Linear / Conv2d / LayerNorm (isinstance-eligible: 'the Linear and Conv2d modules')."""
+    a, b = z3.Int(f"da_{tag}"), z3.Int(f"db_{tag}")
+    E.assume(a >= 1)
+    E.assume(b >= 1)
+    return E.call(E.snippet(SUBCLS, QLIN), [kind, a, b], {})
+
+
+def kind_of(m):
+    """Linear / Conv2d / LayerNorm class the module is an instance of (subclasses included), else None."""
+    cls = m.cls
+    for base in (LINEAR_CLS, CONV2D_CLS, LAYERNORM_CLS):
+        if cls is base or (hasattr(cls, "is_subclass_of") and cls.is_subclass_of(base)):
+            return base
+    return None
 
 
 def walks(run):
     for act in (None, "qint8"):
-        for filt in ("all", "some"):
+        for filt in ("all", "some", "empty"):
             E0 = engine(run)
             names = [n for n, _ in trees(E0)]
             for tname in names:
@@ -298,8 +335,10 @@ def walks(run):
                     snap = {n: {k: v for k, v in m.fields.items() if k in ("weight", "bias")} for n, m in before}
                     hp = {n: dict(m.fields) for n, m in before}
                     qt = E2.load_module(OC.QTYPE).env.lookup
-                    elig = [(n, m) for n, m in before if m.cls in (LINEAR_CLS, CONV2D_CLS, LAYERNORM_CLS)]
+                    elig = [(n, m) for n, m in before if kind_of(m) is not None]
                     sel = None
+                    if filt == "empty":
+                        sel = []
                     if filt == "some":
                         sel = [m for k, (n, m) in enumerate(elig) if k % 2 == 0] + [m for n, m in before if m.cls is RELU][:1]
                     E2.call(qz, [model], {"modules": sel, "weights": qt("qint8"), "activations": qt(act) if act else None})
@@ -327,10 +366,10 @@ def walks(run):
                         continue
                     want = {LINEAR_CLS: "QLinear", CONV2D_CLS: "QConv2d", LAYERNORM_CLS: "QLayerNorm"}
                     for (n, m), (_, q) in zip(before, after):
-                        eligible = m.cls in (LINEAR_CLS, CONV2D_CLS) or (m.cls is LAYERNORM_CLS and act is not None)
+                        eligible = kind_of(m) in (LINEAR_CLS, CONV2D_CLS) or (kind_of(m) is LAYERNORM_CLS and act is not None)
                         selected = sel is None or any(m is s_ for s_ in sel)
                         if eligible and selected:
-                            ok = isinstance(q, Obj) and q.cls.name == want[m.cls] and q is not m
+                            ok = isinstance(q, Obj) and q.cls.name == want[kind_of(m)] and q is not m
                             run.add(f"C08/eligible-selected-module-replaced:{n}[{tag}]/path{pi}", r.hyps, z3.BoolVal(bool(ok)), "property", inst, replay=rp)
                             if not ok:
                                 continue
@@ -381,7 +420,7 @@ def _native_module(kind, kw):
     if kind == "conv2d":
         return torch.nn.Conv2d(4, 4, (3, 3), stride=kw.get("stride", (2, 1)), padding=kw.get("padding", 1), dilation=kw.get("dilation", 1), groups=2,
                                bias=kw.get("bias", True), padding_mode=kw.get("padding_mode", "zeros")), torch.randn(2, 4, 9, 9)
-    return torch.nn.LayerNorm((8,), elementwise_affine=kw.get("affine", True), bias=kw.get("bias", True)), torch.randn(3, 8)
+    return torch.nn.LayerNorm((8,), eps=kw.get("eps", 1e-3), elementwise_affine=kw.get("affine", True), bias=kw.get("bias", True)), torch.randn(3, 8)
 
 
 def replay_twin(model, seed, inst, kw):
@@ -459,12 +498,20 @@ def replay_walk(model, seed, inst):
         "layer1.1.fc1": lambda: seq(layer1=nn.Sequential(seq(fc1=nn.Linear(8, 8)), seq(fc1=nn.Linear(8, 8), norm=nn.LayerNorm(8)))),
         "proj.out_proj": lambda: seq(attn=seq(proj=seq(out_proj=nn.Linear(8, 8), drop=nn.ReLU()), q=nn.Linear(8, 8))),
         "mlp.fc.c": lambda: seq(mlp=seq(fc=seq(c=nn.Conv2d(2, 2, 1)), act=nn.ReLU())),
+        "derived-classes": lambda: seq(fc=type("DerivedLinear", (nn.Linear,), {})(8, 8), blk=seq(conv=type("DerivedConv2d", (nn.Conv2d,), {})(2, 2, 1),
+                                                                                                  norm=type("DerivedLayerNorm", (nn.LayerNorm,), {})(8)), out=nn.Linear(8, 8)),
     }
     model_ = trees_[inst["tree"]]()
     before = dict(model_.named_modules())
     act = qtypes[inst["activations"]] if inst["activations"] else None
+    sel = None
+    eligs = [m for m in before.values() if isinstance(m, (nn.Linear, nn.Conv2d, nn.LayerNorm))]
+    if inst.get("filter") == "empty":
+        sel = []
+    elif inst.get("filter") == "some":
+        sel = [m for k, m in enumerate(eligs) if k % 2 == 0] + [m for m in before.values() if isinstance(m, nn.ReLU)][:1]
     try:
-        quantize(model_, weights=qtypes["qint8"], activations=act)
+        quantize(model_, modules=sel, weights=qtypes["qint8"], activations=act)
     except Exception as e:
         return {"tree": inst["tree"], "what": f"quantize() raises {type(e).__name__}: {str(e)[:150]}"}
     after = dict(model_.named_modules())
@@ -472,6 +519,7 @@ def replay_walk(model, seed, inst):
         return {"tree": inst["tree"], "what": "module names changed", "before": list(before), "after": list(after)}
     for n, m in before.items():
         elig = isinstance(m, (nn.Linear, nn.Conv2d)) or (act is not None and isinstance(m, nn.LayerNorm))
+        elig = elig and (sel is None or any(m is s_ for s_ in sel))
         if elig and not isinstance(after[n], QModuleMixin):
             return {"tree": inst["tree"], "what": f"eligible module '{n}' was not replaced"}
         if not elig and after[n] is not m:
